@@ -5,7 +5,12 @@
 // Part A (eval.go): exhaustive enumeration of rules x nested rules x ordered
 // signer lists through aclutils.IdentifyAccount / CheckContractMethodPerm over a
 // map-backed AclManager, against a by-definition reference evaluator, plus
-// monotonicity on every (list, list plus one entry) pair.
+// monotonicity on every (list, list plus one entry) pair and order independence
+// (every enumerated list gets the verdict of the same entries sorted: the verdict
+// is a function of the signer set). A second, signed-weight box (signed.go) puts
+// negative, zero and huge weights and accept values <= 0 into threshold rules at
+// the top level and in the nested account, with sums exactly on / one step off
+// the accept value; monotonicity is judged there only without negative weights.
 //
 // Part B (hist.go): every short history of SetAccountAcl / SetMethodAcl /
 // spend-from-account transactions and blocks on the real chain fixture with the
